@@ -142,6 +142,12 @@ func drawVerbose(t *rapid.T) *pbt.Case {
 func ownDetail(l gen.Layer, decoded bool) []string {
 	switch l.Typ {
 	case "*withstack.withStack":
+		if l.Spec.K == "stackdeep" { // captured no frame
+			if decoded {
+				return []string{"(opaque error wrapper)", "withstack.withStack"}
+			}
+			return []string{"attached stack trace"}
+		}
 		if decoded {
 			// No decoder is registered for withStack: it always arrives as
 			// an opaque wrapper whose entry shows the stack as text.
